@@ -71,6 +71,8 @@ type V struct {
 	L    []V    `json:"l,omitempty"`
 	// obj: values of the fields bound as plain struct fields, by GraphQL field name
 	Fields map[string]V `json:"fields,omitempty"`
+	// null: the Go value was a nil POINTER to this concrete type held in the position's Go interface
+	TypedNil string `json:"typedNil,omitempty"`
 }
 
 // Plain lists, per object type, the fields bound as plain struct fields (set by the generated main).
@@ -380,9 +382,10 @@ func (u *U) resolve(ft reflect.Type, obj, goField string, args []reflect.Value) 
 		return []reflect.Value{zero, reflect.ValueOf(errors.New(o.Msg))}
 	case "nil":
 		if nilable(rt) {
-			inv.Kind, inv.Val = "value", &V{K: "null"}
+			nv, tn := u.nilOf(s, rt, gt, h, o.Type)
+			inv.Kind, inv.Val = "value", &V{K: "null", TypedNil: tn}
 			s.record(inv)
-			return []reflect.Value{zero, nilErr}
+			return []reflect.Value{nv, nilErr}
 		}
 		fallthrough
 	default:
@@ -450,7 +453,9 @@ func (u *U) build2(s *State, rt reflect.Type, gt *ast.Type, path string, h uint6
 			eo, eh := s.decide(ep, "#elem")
 			et := sl.Elem()
 			if _, forced := s.Plan.Overrides[ep+"#elem"]; (forced && eo.Kind == "nil" || !forced && int(eh%1000) < s.Plan.Rates.ElemNil) && nilable(et) {
-				v.L[i] = V{K: "null"}
+				nv, tn := u.nilOf(s, et, gt.Elem, eh, eo.Type)
+				v.L[i] = V{K: "null", TypedNil: tn}
+				out.Index(i).Set(nv)
 				continue
 			}
 			var f *Outcome
@@ -570,6 +575,45 @@ func (u *U) fillPlain(s *State, sv reflect.Value, typeName, objPath string, v *V
 		sf.Set(val)
 		v.Fields[fn] = fv
 	}
+}
+
+// nilOf: the nil a resolver returns at a position of Go type rt. For a Go interface (a GraphQL interface or union)
+// there are two: the untyped nil, and a nil POINTER to one of the possible concrete types held in the interface
+// (`var d *Dog; return d, nil`), which the generated type switch must also complete to null. The typed one is
+// returned when the plan forces a type (`{"kind":"nil","type":"T"}`) and, by hash, at half of the NULLABLE abstract
+// positions (at non-null ones gqlgen nulls the position without reporting an error: known finding F01b, exercised by
+// directed cases only). The second result names the concrete type of a typed nil.
+func (u *U) nilOf(s *State, rt reflect.Type, gt *ast.Type, h uint64, force string) (reflect.Value, string) {
+	zero := reflect.Zero(rt)
+	if rt.Kind() != reflect.Interface || gt == nil || gt.Elem != nil {
+		return zero, ""
+	}
+	if force == "" && (gt.NonNull || (h>>21)&1 == 0) {
+		return zero, ""
+	}
+	def := s.Schema.Types[gt.NamedType]
+	if def == nil || (def.Kind != ast.Interface && def.Kind != ast.Union) {
+		return zero, ""
+	}
+	var names []string
+	for _, p := range s.Schema.GetPossibleTypes(def) {
+		if p.Kind == ast.Object {
+			names = append(names, p.Name)
+		}
+	}
+	if len(names) == 0 {
+		return zero, ""
+	}
+	sort.Strings(names)
+	name := names[int((h>>24)%uint64(len(names)))]
+	if force != "" {
+		name = force
+	}
+	ct, ok := u.Types[name]
+	if !ok || !reflect.PointerTo(ct).Implements(rt) {
+		return zero, ""
+	}
+	return reflect.Zero(reflect.PointerTo(ct)).Convert(rt), name
 }
 
 func (u *U) asIface(it reflect.Type, pv reflect.Value) reflect.Value {
